@@ -91,6 +91,17 @@ func pairScenario(seed uint64, target string, a, b string, item int) *Scenario {
 		}
 		sc.Tasks[0] = append(sc.Tasks[0], c)
 	}
+	if item%9 == 0 {
+		// nil slices in every argument position (next to the ordinary pair)
+		add(Call{Fn: FnEqual, A: 0, B: 1, NilA: true})
+		add(Call{Fn: FnEqual, A: 0, B: 1, NilB: true})
+		add(Call{Fn: FnMergePatch, A: 0, B: 1, NilA: true})
+		add(Call{Fn: FnMergePatch, A: 0, B: 1, NilB: true})
+		add(Call{Fn: FnMergeMergePatches, A: 0, B: 1, NilA: true, NilB: true})
+		add(Call{Fn: FnCreateMergePatch, A: 0, B: 1, NilA: true})
+		add(Call{Fn: FnCreateMergePatch, A: 0, B: 1, NilB: true})
+		add(Call{Fn: FnDecodePatch, A: 0, Slot: 1, NilA: true})
+	}
 	add(Call{Fn: FnEqual, A: 0, B: 1})
 	add(Call{Fn: FnMergePatch, A: 0, B: 1})
 	add(Call{Fn: FnMergeMergePatches, A: 0, B: 1})
@@ -98,6 +109,9 @@ func pairScenario(seed uint64, target string, a, b string, item int) *Scenario {
 	// a as patch applied to b as document
 	add(Call{Fn: FnDecodePatch, A: 0, Slot: 0})
 	add(Call{Fn: FnApplyWithOptions, A: 1, Slot: 0, Opts: o})
+	if item%9 == 0 {
+		add(Call{Fn: FnApplyWithOptions, A: 1, Slot: 0, Opts: o, NilA: true})
+	}
 	return sc
 }
 
